@@ -1,7 +1,8 @@
 //! helpers around the library's JSONPath entry points (shared by C07, C08, C11, C15, C17)
 
 use crate::monitor::{guard, Ctx, Panicked};
-use crate::tree::hex;
+use crate::refcodec;
+use crate::tree::{hex, Tree};
 use jsonb::jsonpath::{parse_json_path, Mode, Selector};
 
 #[derive(Debug, Clone, PartialEq)]
@@ -93,5 +94,61 @@ pub fn note_parse_reject(ctx: &mut Ctx, text: &str) {
     ctx.count("path.rejected-by-parser(C09 decides)");
     if ctx.notes.len() < 3 {
         ctx.notes.push(format!("path not accepted by the parser (left to C09): {:?}", text));
+    }
+}
+
+/// one `Selector` object serving several documents in turn: what it returns for a document does
+/// not depend on the documents it was applied to before
+pub fn selector_reuse(ctx: &mut Ctx, enc: &[u8], other: &[u8], text: &str, info: &dyn Fn() -> String) {
+        for m in 0..4 {
+        ctx.count("selector-reuse");
+        let r = guard(|| {
+            let p = parse_json_path(text.as_bytes()).ok()?;
+            let sel = Selector::new(p, mode_of(m));
+            let run = |d: &[u8]| {
+                let (mut data, mut offsets) = (Vec::new(), Vec::new());
+                let r = sel.select(d, &mut data, &mut offsets).map_err(|e| format!("{:?}", e));
+                (r, data, offsets, sel.exists(d).ok(), sel.predicate_match(d).ok())
+            };
+            let first = run(enc);
+            let _ = run(other);
+            let again = run(enc);
+            Some((first, again))
+        });
+        match r {
+            Err(p) => ctx.panic_violation(&format!("Selector({}) reused", MODE_NAMES[m]), &p, info),
+            Ok(Some((first, again))) => {
+                if first != again {
+                    ctx.violation("selector-reuse/depends-on-earlier-document", || format!("mode {}: first {:?} ; after another document {:?} ; other={} ; {}", MODE_NAMES[m], first, again, hex(other), info()));
+                }
+            }
+            Ok(None) => {}
+        }
+    }
+}
+
+
+/// a valid document of the same encoded length whose root is of another kind (a string for
+/// anything that is not a string; an array of nulls or a one-member object for a string)
+pub fn same_len_other_root(enc: &[u8], t: &Tree) -> Option<Vec<u8>> {
+    let l = enc.len();
+    let o = match t {
+        Tree::Str(_) => {
+            if l >= 8 && (l - 4) % 4 == 0 {
+                Tree::Arr(vec![Tree::Null; (l - 4) / 4])
+            } else if l >= 12 {
+                Tree::Obj(vec![("k".repeat(l - 12), Tree::Null)])
+            } else {
+                return None;
+            }
+        }
+        _ if l >= 8 => Tree::Str("x".repeat(l - 8)),
+        _ => return None,
+    };
+    let e = refcodec::encode(&o);
+    if e.len() == l {
+        Some(e)
+    } else {
+        None
     }
 }
